@@ -345,6 +345,74 @@ func runC20(p *core.Prog, r *core.Report) {
 		}
 	}
 
+	// ---- R3 (cont.): per-call state of Launch/launch is fresh — output buffers and the environment slice
+	for _, fn := range []*ssa.Function{launch, launcher} {
+		if fn == nil {
+			continue
+		}
+		sx.Instrs(fn, func(in ssa.Instruction) {
+			st, ok := in.(*ssa.Store)
+			if !ok {
+				return
+			}
+			fa, ok := st.Addr.(*ssa.FieldAddr)
+			if !ok || sx.OwnerName(fa.X.Type()) != "Cmd" {
+				return
+			}
+			f := sx.FieldOf(fa)
+			switch f.Name() {
+			case "Stdout", "Stderr":
+				org := sx.Origins(st.Val)
+				fresh := len(org) == 1 && org["alloc"]
+				if org["global:Stdout"] || org["global:Stderr"] {
+					return // inherited os.Stdout / os.Stderr
+				}
+				r.Check(fresh, "C20-R3", fnName(fn)+": cmd."+f.Name()+" is a buffer owned by this call", p.Pos(in.Pos()), "a local buffer", "cmd."+f.Name()+" is "+keys(org)+" — not a buffer created for this call (pooled or shared buffers keep the bytes of an earlier, possibly failed, launch: a later Launch then reports the old error or the old pid)")
+			case "Env":
+				// append(os.Environ(), …): the slice appended to must be the fresh result of os.Environ() in this call
+				okEnv, why := false, "cmd.Env is not built by appending to a fresh os.Environ()"
+				if c, ok := st.Val.(*ssa.Call); ok && isBuiltin(c, "append") {
+					base := sx.Unspill(c.Call.Args[0])
+					if bc, ok := base.(*ssa.Call); ok && sx.CalleeName(bc) == "os.Environ" && bc.Parent() == fn {
+						okEnv = true
+					} else {
+						why = "cmd.Env is appended to " + short(sx.ValPath(c.Call.Args[0])) + " (" + keys(sx.Origins(c.Call.Args[0])) + "), a slice that outlives the call: concurrent Launch calls append into the same spare capacity and start each other's handler"
+					}
+				}
+				r.Check(okEnv, "C20-R4", fnName(fn)+": environment slice is fresh for this call", p.Pos(in.Pos()), "append(os.Environ(), …)", why)
+			}
+		})
+	}
+	// Run recognises its role by the *presence* of the name variable (Register accepts any name, including the empty one)
+	if runFn := p.Func("daemon", "Run"); runFn != nil {
+		okP, why := false, "Run does not read the daemon-name variable with os.LookupEnv"
+		sx.Instrs(runFn, func(in ssa.Instruction) {
+			c, ok := in.(*ssa.Call)
+			if !ok {
+				return
+			}
+			switch sx.CalleeName(c) {
+			case "os.LookupEnv":
+				if k, isC := sx.ConstString(c.Call.Args[0]); isC && strings.Contains(k, "NAME") {
+					for _, u := range *c.Referrers() {
+						if e, ok := u.(*ssa.Extract); ok && e.Index == 1 {
+							for _, uu := range *e.Referrers() {
+								if _, ok := uu.(*ssa.If); ok {
+									okP = true
+								}
+							}
+						}
+					}
+				}
+			case "os.Getenv":
+				if k, isC := sx.ConstString(c.Call.Args[0]); isC && strings.Contains(k, "NAME") {
+					why = "the role is decided from os.Getenv(" + k + ") != \"\": a handler registered under the empty name is never recognised in the re-executed process, Launch(\"\") returns garbage"
+				}
+			}
+		})
+		r.Check(okP, "C20-R4", "Run recognises a re-executed process by the presence of the name variable", p.FuncPos(runFn), "os.LookupEnv + ok", why)
+	}
+
 	// ---- R4: role flags
 	{
 		envConsts := func(fn *ssa.Function) []string {
